@@ -6,6 +6,9 @@ def intrinsicDispatch (toks : List String) : Option String :=
   match toks with
   | "conc" :: _ => some "ok"     -- C20: concurrent scenario under the race detector vs sequential results
   | "dec" :: _ => some "ok"
+  -- inputs of recorded findings (KNOWN_FINDINGS.txt): the property demands "ok" (another password is refused; an
+  -- issued ticket is resumed or replaced by a full handshake)
+  | "pkcs8hmaceq" :: _ => some "ok" | "p12pweq" :: _ => some "ok" | "bigticket" :: _ => some "ok"
   | "colddec" :: _ => some "ok"  -- C18: a decoder as the first action of a fresh process: returns, no panic
   | "sm2fresh" :: _ => some "ok" -- C01: n signatures with n fresh random streams: every one verifies, no r twice      -- C18: a decoder on one (mutated) input: returns, within time and memory limits
   | _ => none
